@@ -598,7 +598,8 @@ type linClient struct {
 type linWorld struct {
 	c        *Ctx
 	w        *World
-	ev       int64
+	ev       *int64 // one global event counter, shared by the realms of a run
+	realm    string
 	ops      []*linOp
 	pubs     map[string]*linOp // tag -> publish op
 	calls    map[string]*linOp
@@ -613,7 +614,7 @@ type linWorld struct {
 	net      bool // a third of the sessions over simulated rawsocket / websocket
 }
 
-func (lw *linWorld) stamp() int64 { lw.ev++; return lw.ev }
+func (lw *linWorld) stamp() int64 { *lw.ev++; return *lw.ev }
 
 const linPatience = 20 * time.Second
 
@@ -624,9 +625,9 @@ func (lw *linWorld) newSess(cl *linClient) *Sess {
 	name := fmt.Sprintf("c%d.%d", cl.idx, cl.gen)
 	var s *Sess
 	if lw.net {
-		s = NewAnySess(lw.c, lw.w, sg, name, "r1", 512, nil)
+		s = NewAnySess(lw.c, lw.w, sg, name, wamp.URI(lw.realm), 512, nil)
 	} else {
-		s = lw.w.NewSess(name, "r1", sg.Bool(), 512, nil)
+		s = lw.w.NewSess(name, wamp.URI(lw.realm), sg.Bool(), 512, nil)
 	}
 	s.grp = cl.grp // the client's actor, reader and handlers are one party
 	cl.s = s
@@ -1118,14 +1119,23 @@ func genLinTmpl(g *Rand, fl linFlavour) linTmpl {
 	return t
 }
 
-func runLin(c *Ctx, fl linFlavour) {
+func runLin(c *Ctx, fl linFlavour) { runLinRealms(c, fl, 1) }
+
+// runLinRealms: nRealms > 1 runs an independent concurrent history in each of several
+// realms of one router at the same time; every realm's history must be linearizable
+// against its own model, and nothing tagged in one realm may show up in another (C11).
+func runLinRealms(c *Ctx, fl linFlavour, nRealms int) {
 	g := c.Gen
 	strict := g.Chance(1, 4)
-	rc := &router.RealmConfig{URI: "r1", AnonymousAuth: true, AllowDisclose: true, StrictURI: strict}
-	// in a fifth of the runs the realm does not exist yet: it comes into being from the
-	// router's realm template when the first clients - several at once - say HELLO
-	tmpl := g.Chance(1, 5)
-	cfg := &router.Config{RealmConfigs: []*router.RealmConfig{rc}}
+	// in a fifth of the single-realm runs the realm does not exist yet: it comes into being from
+	// the router's realm template when the first clients - several at once - say HELLO
+	tmpl := nRealms == 1 && g.Chance(1, 5)
+	cfg := &router.Config{}
+	var realms []string
+	for i := 1; i <= nRealms; i++ {
+		realms = append(realms, fmt.Sprintf("r%d", i))
+		cfg.RealmConfigs = append(cfg.RealmConfigs, &router.RealmConfig{URI: wamp.URI(realms[i-1]), AnonymousAuth: true, AllowDisclose: true, StrictURI: strict})
+	}
 	if tmpl {
 		cfg = &router.Config{RealmTemplate: &router.RealmConfig{AnonymousAuth: true, AllowDisclose: true, StrictURI: strict}}
 	}
@@ -1135,8 +1145,16 @@ func runLin(c *Ctx, fl linFlavour) {
 		return
 	}
 	c.W = w
-	lw := &linWorld{c: c, w: w, pubs: map[string]*linOp{}, calls: map[string]*linOp{}, pubReq: map[string]wamp.ID{}, internal: map[wamp.ID]bool{}, sessOf: map[*Sess]wamp.ID{}, strict: strict, net: g.Chance(1, 3)}
+	var ev int64
+	net := g.Chance(1, 3)
+	var lws []*linWorld
+	for _, realm := range realms {
+		lws = append(lws, &linWorld{c: c, w: w, ev: &ev, realm: realm, pubs: map[string]*linOp{}, calls: map[string]*linOp{}, pubReq: map[string]wamp.ID{}, internal: map[wamp.ID]bool{}, sessOf: map[*Sess]wamp.ID{}, strict: strict, net: net})
+	}
 	ncl := g.Range(2, 5)
+	if nRealms > 1 {
+		ncl = g.Range(2*nRealms, 3*nRealms)
+	}
 	per := g.Range(3, 9)
 	if c.Thorough {
 		per = g.Range(3, 14)
@@ -1152,25 +1170,31 @@ func runLin(c *Ctx, fl linFlavour) {
 		n += k
 	}
 	c.Res.NOps = n
-	// bootstrap: one observer session that stays (not with a template realm: there the
-	// clients' first joins are the ones that create the realm)
-	var bootID wamp.ID
+	// bootstrap: one observer session per realm that stays (not with a template realm: there
+	// the clients' first joins are the ones that create the realm)
+	bootIDs := make([]wamp.ID, len(lws))
 	if !tmpl {
-		boot := w.NewSess("boot", "r1", true, 512, nil)
-		if !boot.Join() {
-			c.Res.Tooling = "boot session could not join"
-			return
+		for i, lw := range lws {
+			boot := w.NewSess("boot"+lw.realm, wamp.URI(lw.realm), true, 512, nil)
+			if !boot.Join() {
+				c.Res.Tooling = "boot session could not join"
+				return
+			}
+			bootIDs[i] = boot.ID
+			lw.allSess = append(lw.allSess, boot.ID)
 		}
-		bootID = boot.ID
-		lw.allSess = append(lw.allSess, boot.ID)
 	} else {
 		c.Probe("lin_template_realm")
+	}
+	if nRealms > 1 {
+		c.Probe("lin_several_realms")
 	}
 	done := make(chan int)
 	idx := 0
 	var sample []string
 	for i := range scripts {
 		cl := &linClient{idx: i, grp: simrt.NewGroup()}
+		lw := lws[i%len(lws)]
 		script := scripts[i]
 		first := idx
 		idx += len(script)
@@ -1196,69 +1220,90 @@ func runLin(c *Ctx, fl linFlavour) {
 		<-done
 	}
 	simrt.WaitQuiescent("lin-settled")
-	c.Res.Sample = fmt.Sprintf("%d concurrent clients, strict=%v: %s", ncl, strict, strings.Join(sample, " "))
+	c.Res.Sample = fmt.Sprintf("%d concurrent clients in %d realm(s), strict=%v: %s", ncl, nRealms, strict, strings.Join(sample, " "))
 	c.Res.Shape = fmt.Sprintf("%x", hashStr(c.Res.Sample)^c.Spec.SchedSeed)
-	c.Res.NonTrivial = c.S.MultiEnabled > 0 && len(lw.ops) > 3
+	nops := 0
+	for _, lw := range lws {
+		nops += len(lw.ops)
+	}
+	c.Res.NonTrivial = c.S.MultiEnabled > 0 && nops > 3
 	if w.Log.drops != nil {
 		c.Probe("lin_skipped_router_dropped_messages")
 		CloseAll(c, w, false)
 		return
 	}
 	// outputs only known now: who received each publication, whom each call invoked
-	pubIDs := map[string]wamp.ID{}
-	for _, s := range w.Sess {
-		for _, r := range s.Inbox {
-			switch x := r.Msg.(type) {
-			case *wamp.Event:
-				tag := ""
-				if len(x.Arguments) > 0 {
-					tag, _ = wamp.AsString(x.Arguments[0])
+	for _, lw := range lws {
+		pubIDs := map[string]wamp.ID{}
+		for _, s := range w.Sess {
+			if string(s.Realm) != lw.realm {
+				continue
+			}
+			for _, r := range s.Inbox {
+				switch x := r.Msg.(type) {
+				case *wamp.Event:
+					tag := ""
+					if len(x.Arguments) > 0 {
+						tag, _ = wamp.AsString(x.Arguments[0])
+					}
+					o := lw.pubs[tag]
+					if o == nil {
+						c.Violf("concurrent run: %s (realm %s) received an EVENT nobody published in its realm: %s", s.Name, lw.realm, Brief(x))
+						continue
+					}
+					o.Set = append(o.Set, fmt.Sprintf("%d:%d", s.ID, x.Subscription))
+					if p, ok := pubIDs[tag]; ok && p != x.Publication {
+						c.Violf("concurrent run: receivers of publication %s see different publication ids %d and %d", tag, p, x.Publication)
+					}
+					pubIDs[tag] = x.Publication
+					if p, ok := lw.pubReq[tag]; ok && p != x.Publication {
+						c.Violf("concurrent run: EVENT of publication %s carries publication id %d, PUBLISHED said %d", tag, x.Publication, p)
+					}
+				case *wamp.Invocation:
+					tag := ""
+					if len(x.Arguments) > 0 {
+						tag, _ = wamp.AsString(x.Arguments[0])
+					}
+					o := lw.calls[tag]
+					if o == nil {
+						c.Violf("concurrent run: %s (realm %s) received an INVOCATION for a call nobody made in its realm: %s", s.Name, lw.realm, Brief(x))
+						continue
+					}
+					o.Set = append(o.Set, fmt.Sprintf("%d:%d", s.ID, x.Registration))
 				}
-				o := lw.pubs[tag]
-				if o == nil {
-					c.Violf("concurrent run: %s received an EVENT nobody published: %s", s.Name, Brief(x))
-					continue
-				}
-				o.Set = append(o.Set, fmt.Sprintf("%d:%d", s.ID, x.Subscription))
-				if p, ok := pubIDs[tag]; ok && p != x.Publication {
-					c.Violf("concurrent run: receivers of publication %s see different publication ids %d and %d", tag, p, x.Publication)
-				}
-				pubIDs[tag] = x.Publication
-				if p, ok := lw.pubReq[tag]; ok && p != x.Publication {
-					c.Violf("concurrent run: EVENT of publication %s carries publication id %d, PUBLISHED said %d", tag, x.Publication, p)
-				}
-			case *wamp.Invocation:
-				tag := ""
-				if len(x.Arguments) > 0 {
-					tag, _ = wamp.AsString(x.Arguments[0])
-				}
-				o := lw.calls[tag]
-				if o == nil {
-					c.Violf("concurrent run: %s received an INVOCATION for a call nobody made: %s", s.Name, Brief(x))
-					continue
-				}
-				o.Set = append(o.Set, fmt.Sprintf("%d:%d", s.ID, x.Registration))
 			}
 		}
-	}
-	for _, o := range lw.ops {
-		if o.rawRegs {
-			// keep the registrations some client was told about; the others are the realm's own
-			var keep []string
-			for _, e := range o.Set {
-				var id wamp.ID
-				fmt.Sscanf(e[2:], "%d", &id)
-				if hasID(lw.allRegs, id) {
-					keep = append(keep, e)
+		for _, o := range lw.ops {
+			if o.rawRegs {
+				// keep the registrations some client was told about; the others are the realm's own
+				var keep []string
+				for _, e := range o.Set {
+					var id wamp.ID
+					fmt.Sscanf(e[2:], "%d", &id)
+					if hasID(lw.allRegs, id) {
+						keep = append(keep, e)
+					}
 				}
+				o.Set = keep
 			}
-			o.Set = keep
+			sort.Strings(o.Set)
 		}
-		sort.Strings(o.Set)
 	}
 	if len(c.Res.Violations) == 0 {
-		ops := lw.ops
-		c.Res.post = func(res *Result) { linCheck(res, ops, bootID, strict) }
+		type job struct {
+			ops   []*linOp
+			boot  wamp.ID
+			realm string
+		}
+		var jobs []job
+		for i, lw := range lws {
+			jobs = append(jobs, job{lw.ops, bootIDs[i], lw.realm})
+		}
+		c.Res.post = func(res *Result) {
+			for _, j := range jobs {
+				linCheck(res, j.ops, j.boot, strict, j.realm)
+			}
+		}
 	}
 	CloseAll(c, w, false)
 }
@@ -1266,7 +1311,7 @@ func runLin(c *Ctx, fl linFlavour) {
 var linPartName = map[byte]string{'S': "session table", 'B': "broker (subscriptions, publications)", 'D': "dealer (registrations, calls)"}
 
 // linCheck runs outside the bubble (plain goroutines, real time).
-func linCheck(res *Result, ops []*linOp, boot wamp.ID, strict bool) {
+func linCheck(res *Result, ops []*linOp, boot wamp.ID, strict bool, realm string) {
 	for _, part := range []byte{'S', 'B', 'D'} {
 		var hist []porcupine.Operation
 		var mine []*linOp
@@ -1308,7 +1353,7 @@ func linCheck(res *Result, ops []*linOp, boot wamp.ID, strict bool) {
 			if len(lines) > 40 {
 				lines = append(lines[:40], "...")
 			}
-			res.Violations = append(res.Violations, fmt.Sprintf("concurrent history of the %s is not linearizable: no order of these operations consistent with their [invocation,return] stamps gives these answers from the sequential model:\n  %s", linPartName[part], strings.Join(lines, "\n  ")))
+			res.Violations = append(res.Violations, fmt.Sprintf("concurrent history of realm "+realm+"'s %s is not linearizable: no order of these operations consistent with their [invocation,return] stamps gives these answers from the sequential model:\n  %s", linPartName[part], strings.Join(lines, "\n  ")))
 		}
 	}
 }
